@@ -102,10 +102,13 @@ manifest = {
  "engines": [
    {"name": "clarabel-verif harness (proptest)", "path": "/verif/harness", "serves_properties": [c["property_id"] for c in checks],
     "kind_free_text": "single cargo crate: proptest TestRunner over a shrinkable choice tape, exhaustive small-scope enumerators, independent oracles, pure-Rust BLAS/LAPACK shim"},
+   {"name": "libFuzzer over the generator tape (cargo-fuzz, nightly, AddressSanitizer)", "path": "/verif/fuzz",
+    "serves_properties": ["C01","C02","C03","C04","C05","C07","C08","C10","C11","C12","C13","C14","C15","C16","C17","C18","C19"],
+    "kind_free_text": "one libFuzzer target: input bytes are read as the u32 choice tape of a suite's generator (CV_FUZZ_SUITE), the decoded case runs through the same oracle as the proptest suite, failures are saved in the same replay format. Built and run by the harness binary at the end of every thorough tier (never in quick tiers); VERIF_NO_FUZZ=1 skips it."},
  ],
  "checks": checks,
  "not_applicable": [{"property_id": pid, "reason": NA.get(pid, PENDING_REASON)} for pid in ids if pid not in CLAIMED],
- "notes": "All checks: exit 0 = held on everything explored; exit 1 + VIOLATION line = violation; exit 2 = inconclusive (watchdog); exit 3 = harness/build problem. VERIF_SEED selects the PRNG stream. known findings: /verif/known_findings.json.",
+ "notes": "Thorough tiers additionally build /verif/fuzz with cargo +nightly fuzz (about 5 min cold) and run coverage-guided campaigns with fixed execution counts. All checks: exit 0 = held on everything explored; exit 1 + VIOLATION line = violation; exit 2 = inconclusive (watchdog); exit 3 = harness/build problem. VERIF_SEED selects the PRNG stream. known findings: /verif/known_findings.json.",
 }
 json.dump(manifest, open(os.path.join(HERE, "MANIFEST.json"), "w"), indent=1)
 try:
